@@ -1,7 +1,7 @@
 """C02 -- orientation U, metric B and UBI convert into each other without loss"""
 from .common import *
 from contracts.specs import *
-from pyvc.engine import Mat, Real
+from pyvc.engine import Mat, Real, Rot, Cell
 
 PROVED = ['u_to_ubi', 'ubi_to_cell', 'ubi_to_u#of_u_to_ubi', 'ubi_to_rod#of_u_to_ubi', 'ub_to_u_b']
 BOUNDED = ['ubi_to_cell#of_u_to_ubi']
@@ -78,9 +78,45 @@ def bounded_ub_to_u_b_conditioned(module):
     return f
 
 
+def _req_rot_cell(U, c):
+    yield 'is_rotation', is_rotation(U)
+    yield 'valid_cell', valid_cell(c)
+
+
+def lemma_ubi_metric(module):
+    """UBI.UBI' = G(c) for UBI = u_to_ubi(U, c): the UBI is a fresh matrix constrained only by the (proved) postcondition
+    of u_to_ubi, B by the (proved) postcondition of form_b_mat; the algebra is the explicit-certificate lemma
+    algebra.ubi_metric instantiated here.  With ubi_to_cell's proved contract G(result) = UBI.UBI' this is the metric
+    half of ubi_to_cell(u_to_ubi(U, c)) = c (the other half, metric -> parameters injective, is lemma a_to_cell∘form_a_mat of C01)."""
+    from . import algebra as A
+
+    def body(ns, U, c):
+        from pyvc.engine import REGISTRY
+        from contracts.tools_laue import native_fn, num_args
+        from pyvc import terms as T
+        k = REGISTRY[(module, 'u_to_ubi')]
+        K = k.K()
+        f = native_fn(module, 'u_to_ubi')
+        na = num_args([U, c])
+        Bn = entries(ns.form_b_mat(c))          # postcondition of form_b_mat: upper_pos, (B'B) G = K^2 I, B = Bspec
+        X = [[T.real('ubi_%d%d' % (i, j), numdef=(lambda env, i=i, j=j: float(f(*na(env))[i][j]))) for j in range(3)] for i in range(3)]
+        cx = T.ctx()
+        for nm, cond in k.ensures(U, c, X):
+            cx.assume(cond)                     # postcondition of u_to_ubi(U, c): X.(U.Bm) = K I = (U.Bm).X, Bm := Bspec(c, K)
+        Bm = named('Bm', Bspec(c, K))
+        yield 'K_positive', K > 0
+        flat = [x for row in X for x in row] + [x for row in entries(U) for x in row] + [x for row in Bm for x in row] + \
+               [x for row in G(c) for x in row] + [K]
+        yield from A.use_explicit('ubi_metric', A.L_ubi_metric, *flat)
+        yield from named_mat_eq('ubi_ubiT_is_metric_of_cell', mm(X, tr(X)), G(c))
+    return body
+
+
 def units(tier):
-    us = []
+    from . import algebra as A
+    us = [A.unit_explicit('ubi_metric', A.L_ubi_metric, 37)]
     for m in ('tools', 'laue'):
+        us.append(LemmaUnit('ubi_metric_is_cell_metric', m, [('U', Rot()), ('c', Cell())], _req_rot_cell, lemma_ubi_metric(m)))
         for f in PROVED:
             us.append(FuncUnit(m, f))
         for f in BOUNDED:
